@@ -481,6 +481,7 @@ class NumpySMCSampler(SMCSampler):
         dtype=None,
         parameters=None,
         preconditioning_transform=None,
+        rng=None,
     ):
         if preconditioning_transform is not None:
             preconditioning_transform = preconditioning_transform.new_instance(
@@ -494,5 +495,6 @@ class NumpySMCSampler(SMCSampler):
             xp=xp,
             dtype=dtype,
             parameters=parameters,
+            rng=rng,
             preconditioning_transform=preconditioning_transform,
         )
